@@ -709,6 +709,7 @@ class AsyncServer(base_server.BaseServer):
             await self._handle_disconnect(eio_sid, n, reason)
         if eio_sid in self.environ:
             del self.environ[eio_sid]
+        self._binary_packet.pop(eio_sid, None)
 
     def _engineio_server_class(self):
         return engineio.AsyncServer
